@@ -419,6 +419,8 @@ def main(tier, seed):
     # values of every kind in flight as exceptions through finally blocks that allocate; handlers whose frames reuse unwound stack slots
     profcheck.run_scenarios(rep, "thrownvalues", scenarios.thrown_value_scenarios(), binaries, PROP)
     profcheck.run_scenarios(rep, "handlerintact", scenarios.handler_intact_scenarios()[::2], binaries, PROP)
+    # captured variables opened in every order (a variable left open on a dead slot ends as a host panic or a wild write sooner or later)
+    profcheck.run_scenarios(rep, "captureorder", scenarios.capture_order_scenarios(), binaries, PROP)
     states += rep.coverage.pop("states", 0)
     rep.coverage.pop("transitions", 0)
     ncmp += rep.coverage.pop("traces_validated_against_impl", 0)
